@@ -72,6 +72,9 @@ WORLD_OP = st.one_of(
     st.tuples(st.just('blocks'), st.lists(BLOCK, min_size=1, max_size=2)),
     st.tuples(st.just('fork'), st.integers(1, 2), st.lists(BLOCK, min_size=1, max_size=2)),
     st.tuples(st.just('mp_flood'), st.integers(201, 230)),
+    # consolidations: 2-3 mempool transactions each spending hundreds of confirmed outputs (one
+    # fetch batch then resolves more than 1000 prevouts from the UTXO index); only in the fan stratum
+    st.tuples(st.just('mp_consolidate'), st.integers(2, 3), st.sampled_from([400, 520, 640])),
 ).map(list)
 
 
@@ -116,16 +119,28 @@ def with_collisions(init, g, reserve=False):
     return init
 
 
+def with_fan(init, fan):
+    '''The fan stratum: a confirmed transaction with that many outputs (cycling scripts and values)
+    in the fourth block, for the mp_consolidate operation to spend.'''
+    if not fan:
+        return init
+    init = [dict(b) for b in init]
+    init[3]['txs'] = [{'ins': [0], 'outs': [[0, 0]], 'fanout': fan}] + list(init[3]['txs'])
+    return init
+
+
 def case_strategy(races):
     return st.builds(
-        lambda a, p, init, ops, tape, g, reserve: {
-            'activation': a, 'prefetch': p, 'init': with_collisions(init, g, reserve and races),
-            'ops': ops, 'tape': tape, 'coll_group': g if reserve and races else None},
+        lambda a, p, init, ops, tape, g, reserve, fan: {
+            'activation': a, 'prefetch': p,
+            'init': with_fan(with_collisions(init, g, reserve and races), fan),
+            'ops': ops, 'tape': tape, 'coll_group': g if reserve and races else None, 'fan': fan},
         st.integers(0, 12), st.integers(1, 8),
         st.lists(INIT_BLOCK, min_size=8, max_size=12),
         st.lists(op_strategy(races), min_size=4 if races else 2, max_size=16),
         st.lists(st.integers(0, 3), max_size=60),
-        st.none() | st.integers(0, 223), st.booleans())
+        st.none() | st.integers(0, 223), st.booleans(),
+        st.sampled_from([0, 0, 0, 0, 1500, 2200]))
 
 
 class MempoolMachine:
@@ -156,6 +171,7 @@ class MempoolMachine:
         self.accept_passes = 0
         self.last_call = None
         self.floods = 0
+        self.consolidations = 0
 
     def fail(self, message, sig):
         if self.violation is None:
@@ -362,6 +378,18 @@ class MempoolMachine:
                     tx = w.mp_add({'ins': [[i % 2, i]], 'outs': [[i % 3, 1], [3, 0]], 'gen': 0})
                     if tx is not None:
                         self.was_in_mempool.add(tx.txid)
+        elif kind == 'mp_consolidate':
+            if self.case.get('fan') and self.consolidations < 2:
+                self.consolidations += 1
+                made = 0
+                for i in range(op[1]):
+                    conf, _ = w.mempool_spendable()
+                    tx = w.mp_add_spending(conf[i % 3::2][:op[2]], [[i % 3, 1]]) if conf else None
+                    if tx is not None:
+                        self.was_in_mempool.add(tx.txid)
+                        made += len(tx.ins)
+                if made > 1000:
+                    self.info['classes'].add('one_refresh_resolves_more_than_1000_confirmed_prevouts')
         elif kind == 'blocks':
             w.extend(op[1])
             self.max_tip_seen = max(self.max_tip_seen, w.height)
